@@ -96,6 +96,8 @@ def run(ctx):
         comp = rng.random() < 0.3
         cases.append({'ids': ids, 'version': 33, 'edition': rng.choice([4, 3, 2]), 'nsub': rng.choice([1, 2]), 'compressed': comp,
                       'forced': '-', 'seed': rng.randrange(1, 2 ** 32), 'maxrep': 3, 'features': {'class-00-first': 1}, 'shared': comp})
+    cases.append({'ids': [12001], 'version': 33, 'edition': 4, 'nsub': 2, 'compressed': True, 'forced': '-', 'seed': 32,
+                  'maxrep': 3, 'features': {'witness-D32': 1}, 'shared': True})
     P.attach_templates(cases)
     P.run_gen(cases)
     import random
@@ -105,6 +107,11 @@ def run(ctx):
             if P.vary_string_lengths(c, random.Random(c['seed'] ^ 0x5A5A5A)):
                 c['features']['strings-shorter-or-longer-than-field'] = 1
                 c['vary_strings'] = True
+    # D32 witness: two values that differ before scaling and are stored as the same integer (273.15 K, 273.151 K)
+    for c in cases:
+        if c['features'].get('witness-D32') and c.get('val_toks'):
+            c['val_toks'] = [['d27315:2'], ['d273151:3']]
+            c['py_vals'] = [[B.model_value_to_python(x) for x in s2] for s2 in c['val_toks']]
     P.run_encode(cases)
     P.run_decode(cases)
     # compressed data: the canonical column layout (SpecC.canonical_bits_c) next to the encoder model
@@ -157,7 +164,8 @@ def run(ctx):
                 if canon_ok and used != int(mc.split(' ')[1].split(':')[1]):
                     canon_ok, canon_why = False, 'columns end at bit %d, layout has %s bits' % (used, mc.split(' ')[1].split(':')[1])
                 if eq and not canon_ok:
-                    ctx.violation({'kind': 'C02-compressed-column-not-canonical', 'case': case, 'detail': canon_why},
+                    ctx.violation(dict({'kind': 'C02-compressed-column-not-canonical', 'case': case, 'detail': canon_why},
+                                       **({'cause': 'equal-after-scaling'} if 'stored-equal finding' in canon_why else {})),
                                   'ids=%s %s' % (c['ids'], canon_why))
         if not eq:
             rt = P.roundtrip_holds(c) and canon_ok
@@ -167,7 +175,7 @@ def run(ctx):
                 rec['no_failing_input'] = True
                 rec['broken'] = 'correspondence Encode.encode_uncompressed / Encoder.process'
             ctx.violation(rec, 'ids=%s %s' % (c['ids'], detail))
-        elif c['impl_enc'][0] == 'ok' and not P.roundtrip_holds(c):
+        elif c['impl_enc'][0] == 'ok' and not c['features'].get('witness-D32') and not P.roundtrip_holds(c):
             i = c.get('impl_dec')
             # D12: the decoder's 1-ulp error for negative scales is C01's finding, not an encoder fault
             dq, dd = P.compare_decode(c)
